@@ -3,6 +3,7 @@
 
 import logging
 import warnings
+from functools import cmp_to_key
 from tlexport.packet import Packet
 from tlexport.tlsrecord import TlsRecord
 from tlexport.tlsversion import TlsVersion
@@ -18,6 +19,11 @@ with warnings.catch_warnings():
     warnings.simplefilter("ignore")
     from cryptography.hazmat.primitives.ciphers.algorithms import AES, TripleDES, IDEA, Camellia
     from cryptography.hazmat.primitives.ciphers.aead import AESCCM, AESGCM
+
+
+def seq_cmp(a, b):
+    """Orders two packets by TCP sequence number in serial number arithmetic (modulo 2^32, RFC 793 3.3)"""
+    return ((a.seq - b.seq + 0x80000000) & 0xFFFFFFFF) - 0x80000000
 
 
 class Session:
@@ -58,6 +64,10 @@ class Session:
 
         self.seen_packets_server = []
         self.seen_packets_client = []
+
+        # sequence number of the next byte expected once a direction's buffer has been consumed
+        self.server_next_seq = None
+        self.client_next_seq = None
 
         self.can_decrypt = False
         self.client_hello_seen = False
@@ -522,10 +532,14 @@ class Session:
     def extract_server_buf(self):
         """Extracts packets from session which together contain complete TLS_Records"""
         self.server_counter += 1
-        self.server_packet_buffer.sort(key=lambda x: x.seq)
+        self.server_packet_buffer.sort(key=cmp_to_key(seq_cmp))
+
+        if self.server_next_seq is not None and self.server_packet_buffer[0].seq != self.server_next_seq:
+            # the segment that continues the stream has not been seen yet
+            return
 
         for i in range(0, len(self.server_packet_buffer) - 1):
-            if self.server_packet_buffer[i].seq + len(self.server_packet_buffer[i].tls_data) != \
+            if (self.server_packet_buffer[i].seq + len(self.server_packet_buffer[i].tls_data)) & 0xFFFFFFFF != \
                     self.server_packet_buffer[i + 1].seq:
                 # need more packets (missing packets)
                 return
@@ -570,15 +584,21 @@ class Session:
                 self.server_tls_records.append(tls_record)
 
                 index += record_len
+            last = self.server_packet_buffer[-1]
+            self.server_next_seq = (last.seq + len(last.tls_data)) & 0xFFFFFFFF
             self.server_packet_buffer.clear()
 
     def extract_client_buf(self):
         """Extracts packets from session which together contain complete TLS_Records"""
         self.client_counter += 1
-        self.client_packet_buffer.sort(key=lambda x: x.seq)
+        self.client_packet_buffer.sort(key=cmp_to_key(seq_cmp))
+
+        if self.client_next_seq is not None and self.client_packet_buffer[0].seq != self.client_next_seq:
+            # the segment that continues the stream has not been seen yet
+            return
 
         for i in range(0, len(self.client_packet_buffer) - 1):
-            if self.client_packet_buffer[i].seq + len(self.client_packet_buffer[i].tls_data) != \
+            if (self.client_packet_buffer[i].seq + len(self.client_packet_buffer[i].tls_data)) & 0xFFFFFFFF != \
                     self.client_packet_buffer[i + 1].seq:
                 # need more packets (missing packets)
                 return
@@ -623,4 +643,6 @@ class Session:
                 self.client_tls_records.append(tls_record)
 
                 index += record_len
+            last = self.client_packet_buffer[-1]
+            self.client_next_seq = (last.seq + len(last.tls_data)) & 0xFFFFFFFF
             self.client_packet_buffer.clear()
